@@ -292,6 +292,31 @@ func generator(r rowT, port int, rec *recorder) resT {
 	subj := map[string][4]string{"plain": {"Unit", "Org", "DE", "model-serial"}, "empty": {"", "", "", ""},
 		"utf8": {"Ünit", "Örg €", "DE", "модель-😀"}, "long": {strings.Repeat("u", 60), strings.Repeat("o", 60), "DE", strings.Repeat("c", 60)},
 		"special": {"a=b,c", "o;x", "D", "cn/with\\chars\""}}[r.Subject]
+	if r.Subject == "manyKeys" {
+		// the generator draws a fresh key every time: the SKI has to be the SHA-1 of the key for every key, also for the one in
+		// 128 whose coordinates have a leading zero byte
+		subj = [4]string{"Unit", "Org", "DE", "many-keys"}
+		for i := 0; i < 700; i++ {
+			ci, err := cert.CreateCertificate(subj[0], subj[1], subj[2], subj[3])
+			if err != nil {
+				res.Detail = "create: " + err.Error()
+				return res
+			}
+			li, err := x509.ParseCertificate(ci.Certificate[0])
+			if err != nil {
+				res.Detail = "parse: " + err.Error()
+				return res
+			}
+			si, err := cert.SkiFromCertificate(li)
+			pub, ok := li.PublicKey.(*ecdsa.PublicKey)
+			if err != nil || !re40.MatchString(si) || !ok || !bytes.Equal(li.SubjectKeyId, keySki(pub)) {
+				res.Detail = fmt.Sprintf("certificate %d of 700: SKI %s is not the SHA-1 of its key", i, si)
+				res.SkiIs40LowerHex = err == nil && re40.MatchString(si)
+				res.PassesGate = true
+				return res
+			}
+		}
+	}
 	c, err := cert.CreateCertificate(subj[0], subj[1], subj[2], subj[3])
 	if err != nil {
 		res.Detail = "create: " + err.Error()
